@@ -60,6 +60,7 @@ package rangeproof
 
 //@ func newWithParams
 //@   property C12 C13 C08
+//@   nonlinear
 //@   requires k != nil && nSplit >= 0
 //@   ensures sign: err == nil ==> (sign == 1 || sign == 0 - 1) && nSplit <= 4
 //@   ensures copy: err == nil ==> result0 != nil && fresh(result0) && result0.sign == sign && result0.a == a && result0.index == index && result0.ld == ld && val(result0.k) == val(k) && result0.k != k && len(result0.cRep) == nSplit
